@@ -852,6 +852,25 @@ func (c *Ctx) specCall(x *SCall) *Val {
 				conj = append(conj, Forall(e.qvars, Implies(e.guard, Or(alts...))))
 			}
 			return Scalar(And(conj...), bt)
+		case "untouched":
+			// every location of the (pre-state) footprint of x holds its pre-state value
+			savedOld := c.inOld
+			c.inOld = true
+			vo := c.evalSpec(x.Args[0])
+			pre := c.footprintEntries(vo, nil, True, name)
+			c.inOld = savedOld
+			var conj []Term
+			for _, e := range pre {
+				for _, h := range e.heaps {
+					cur := c.heapArr(h.name, h.sort)
+					old := c.heapArrIn(c.Fr.OldHeap, h.name, h.sort)
+					if cur.S == old.S {
+						continue
+					}
+					conj = append(conj, Forall(e.qvars, Implies(e.guard, StructEq(Select(cur, e.id), Select(old, e.id)))))
+				}
+			}
+			return Scalar(And(conj...), bt)
 		case "sameobject":
 			// every field of the object (of its dynamic type) has its pre-state value
 			v := c.evalSpec(x.Args[0])
